@@ -30,10 +30,10 @@ PROPS["C19"] = {
     "units": {"kani": ["c19_base64"]},
     "scope": "the base64 alphabet table and the derived two-character lookup table used by the in-circuit base64 chip",
     "not_decided": ["regex -> automaton pipeline (determinisation, minimisation, complement, marker-aware intersection over hash sets)",
-                    "the in-circuit parser and base64 chip", "shipped serialized automata", "decode_char (lazy_static HashMap)"],
+                    "the in-circuit parser and base64 chip", "shipped serialized automata", "decode_char (lazy_static HashMap)", "two_entry_table (4096-element Vec construction: CBMC does not finish, Verus cannot ingest the iterator loops)"],
     "trusted_base": [],
     "assumptions": [],
-    "claim": "Proof for the base64 alphabet kernel only: BASE64_TABLE is exactly the RFC 4648 section 4 alphabet (a bijection onto 0..64) and two_entry_table is exactly the pairwise product table (all 4096 keys distinct, default key decodes to 0). The regex/automaton pipeline and the in-circuit parser/base64 chip are NOT decided: they are whole-language properties with no per-function contract within reach.",
+    "claim": "Proof for the base64 alphabet kernel only: BASE64_TABLE is exactly the RFC 4648 section 4 alphabet (a bijection onto 0..64) and two_entry_default is the key of value 0; two_entry_table itself is out of reach of both tools and is reported uncovered. The regex/automaton pipeline and the in-circuit parser/base64 chip are NOT decided: they are whole-language properties with no per-function contract within reach.",
     "level_note": "Kani/CBMC with symbolic indices over the real constant and the real table-construction function; trusted: Kani+CBMC, rustc MIR. Thin by admission.",
     "technique": "Kani full-domain harnesses against a range-defined RFC 4648 spec (contract-based deductive verification)",
     "design_ref": "DESIGN.md section 5, C19",
